@@ -1,5 +1,6 @@
 import AcraModel.Envelope.Masking
 import AcraModel.Envelope.MaskSession
+import AcraModel.Envelope.MaskWindowLemmas
 import Driver.C01
 /-! Driver ops for C11 (masking). -/
 namespace Driver.C11
@@ -37,6 +38,11 @@ def handle (op : String) (args : List String) : Option String :=
   | "read", [k, pattern, len, side, pub, privs, sym, syms, d] => do
       if !validSide side then pure "badcfg" else
       pure (scanStr (maskRead C (← parseKV pub privs sym syms) (← parseCfg k pattern len side) (← ofHex d)))
+  -- windowok side window protectedPart (model only): the hypothesis `maskWindowOk` of the read theorems
+  | "windowok", [side, w, p] => do
+      if !validSide side then none else
+      let cfg : MaskCfg := { pattern := [1], k := 0, left := side == "left", kind := .block }
+      pure (toString (maskWindowOk cfg (← ofHex w) (← ofHex p)))
   | _, _ => none
 
 end Driver.C11
